@@ -293,6 +293,9 @@ template <int D> struct RecCtx {
     bool topTree = false;       // operator called by the periodic top tree (objects not in the tree)
     long topHeight = 0;         // extended height for the top tree
     long nbLevelsAbove0 = 0;
+    // top tree: level at which each of its own (non-tree) expansion objects was produced, to tie the level argument of later calls to object identity
+    std::unordered_map<const void*, long> topMultipoleLevel, topLocalLevel;
+    void beginTop(long extra) { topTree = true; topHeight = extra + 5; nbLevelsAbove0 = extra; topMultipoleLevel.clear(); topLocalLevel.clear(); }
     bool record = true;
     std::unordered_map<const void*, CellId> multipoles, locals;
     std::function<long()> currentTask;   // task id provider (shim) or null
@@ -454,6 +457,14 @@ public:
                 }
                 // the steps above repeat the box in every octant: all 2^Dim codes, once each
                 if (treeChildren == 0 && n != (1L << D)) ctx->fail("children-count:M2M", "top tree upper step with " + vh::str(n) + " children");
+                // level argument = level of the parent being written: the real level-1 cells are gathered at topHeight-2, every further step one level up
+                if (treeChildren > 0) { if (level != ctx->topHeight - 2) ctx->fail("level-arg:M2M", "top tree: level argument " + vh::str(level) + " for the step gathering the real level-1 cells, expected " + vh::str(ctx->topHeight - 2)); }
+                else for (long k = 0; k < n; ++k) {
+                    auto it = ctx->topMultipoleLevel.find(&ch[k].get());
+                    if (it == ctx->topMultipoleLevel.end()) ctx->fail("unknown-object:M2M", "top tree: child multipole was never produced");
+                    else if (it->second != level + 1) ctx->fail("level-arg:M2M", "top tree: level argument " + vh::str(level) + " but the children were produced at level " + vh::str(it->second));
+                }
+                ctx->topMultipoleLevel[&up] = level;
                 if (ctx->record) for (long k = 0; k < n; ++k) ctx->elems.push_back({vm::OP_M2M, level, {}, {}, pos[k]});
             }
             ctx->access(&up, true, 0, vm::OP_M2M);
@@ -501,10 +512,14 @@ public:
                 }
             } else {
                 if (level < 0 || level > ctx->topHeight - 2) ctx->fail("top-level-range:M2L", "level " + vh::str(level));
+                ctx->topLocalLevel[&loc] = level;
                 for (long k = 0; k < n; ++k) {
                     const auto o = vm::decode7<D>(pos[k]);
                     const long nrm = vm::cheb<D>(o);
                     if (nrm < 2 || nrm > 3) ctx->fail("separation:M2L", "top-tree offset " + vh::astr(o));
+                    auto it = ctx->topMultipoleLevel.find(&src[k].get());
+                    if (it == ctx->topMultipoleLevel.end()) ctx->fail("unknown-object:M2L", "top tree: source multipole was never produced");
+                    else if (it->second != level) ctx->fail("source-level:M2L", "top tree: level argument " + vh::str(level) + " but the source was produced at level " + vh::str(it->second));
                     if (ctx->record) ctx->elems.push_back({vm::OP_M2L, level, {}, {}, pos[k]});
                 }
             }
@@ -548,7 +563,18 @@ public:
                 }
             } else {
                 if (level < 0 || level > ctx->topHeight - 2) ctx->fail("top-level-range:L2L", "level " + vh::str(level));
+                {   // level argument = level of the parent local being read (the level its M2L / the previous L2L step wrote it at)
+                    auto it = ctx->topLocalLevel.find(&up);
+                    if (it == ctx->topLocalLevel.end()) ctx->fail("unknown-object:L2L", "top tree: parent local was never produced");
+                    else if (it->second != level) ctx->fail("level-arg:L2L", "top tree: level argument " + vh::str(level) + " but the parent local belongs to level " + vh::str(it->second));
+                }
                 for (long k = 0; k < n; ++k) {
+                    if (ctx->locals.find(&ch[k].get()) != ctx->locals.end()) { if (level != ctx->topHeight - 2) ctx->fail("level-arg:L2L", "top tree: level argument " + vh::str(level) + " for the step reaching the real level-1 cells, expected " + vh::str(ctx->topHeight - 2)); }
+                    else {
+                        auto ic = ctx->topLocalLevel.find(&ch[k].get());
+                        if (ic != ctx->topLocalLevel.end() && ic->second != level + 1) ctx->fail("child-level:L2L", "top tree: child local belongs to level " + vh::str(ic->second) + " but the level argument is " + vh::str(level));
+                        ctx->topLocalLevel[&ch[k].get()] = level + 1;
+                    }
                     if (pos[k] < 0 || pos[k] >= (1L << D)) ctx->fail("child-code-range:L2L", "top-tree code " + vh::str(pos[k]));
                     // the downward chain of the top tree follows octant 0; the last step reaches real level-1 cells
                     if (ctx->locals.find(&ch[k].get()) == ctx->locals.end() && pos[k] != 0) ctx->fail("top-child-code:L2L", "code " + vh::str(pos[k]) + " for the octant-0 chain");
